@@ -48,6 +48,21 @@ def run(ctx):
                 per.setdefault(v, {"mut": [], "cb": []})["cb"].append((c, on_dispatch))
             elif (c.name in MUT or c.via_name in MUT) and (a0 == "map" or a0.startswith("map")) and "Iterator" not in (c.trait or ""):
                 per.setdefault(v, {"mut": [], "cb": []})["mut"].append((c, on_dispatch))
+        # Take / Drop split the old map by *consuming an iterator over it*: advancing that iterator is part of the
+        # state change (the entries it yields are the ones kept or discarded) and must not depend on dispatch either
+        for c in b.calls:
+            if c.via_name == "next" and c.args and any(s_[0] == "call" and s_[1].name == "take" and "core::mem" in s_[1].defpath for s_ in b.sources(c.args[0], stop_at_calls=False)):
+                g = guards(b, c.block)
+                v = variant_of(g, "event") or "?"
+                od = [l for d, l, _ in g if d == "dispatch"]
+                # only relevant if entries are (re-)inserted into the map afterwards: which entries the iterator still
+                # holds at that point decides the new state
+                ins_after = [x for x in b.calls if x.name == "insert" and x.args and describe_operand(b, x.args[0]) == "map" and x.block in b.reachable_from([c.block])
+                             and variant_of(guards(b, x.block), "event") == v]
+                if not ins_after:
+                    continue
+                r.check(not od, "client-map/%s/old-map-iterated-unconditionally" % v, c.loc(), "the iterator over the old map is advanced whatever `dispatch` is",
+                        "for MapMessage::%s the iterator over the old map is only advanced when `dispatch` is true: with callbacks suppressed the entries are not dropped and the replica diverges" % v)
         for v in ("Update", "Remove", "Clear", "Take", "Drop"):
             if v not in per or not per[v]["mut"]:
                 r.bad("client-map/%s/mutates" % v, where(b), "no state mutation found for MapMessage::%s" % v)
